@@ -12,7 +12,7 @@ Definition summ (src : srcp) (c : cfg) (sched : list step) : gs := gs_outs gs0 (
 
 Definition plain_cfg : cfg :=
   {| c_oneway := false; c_data := false; c_trailers := false; c_route := RouteForward; c_nhosts := 2%nat; c_retry_on := false;
-     c_num_retries := 0%nat; c_codes := []; c_try_timeout := false; c_max_retries := 0; c_recv := []; c_send := []; c_pool := []; c_delay := []; c_snd_err_hdr := false; c_snd_err_data := false; c_snd_err_trl := false |}.
+     c_num_retries := 0%nat; c_codes := []; c_try_timeout := false; c_max_retries := 0; c_recv := []; c_send := []; c_pool := []; c_delay := []; c_snd_err_hdr := false; c_snd_err_data := false; c_snd_err_trl := false; c_http := false |}.
 
 (* the worker runs whenever it can, every sleep ends: 120 rounds of [Worker; Worker; Worker; wake] *)
 Definition drive : list step := concat (repeat [Worker; Worker; Worker; Env EvWake] 120).
@@ -166,3 +166,46 @@ Lemma witness_global_after_answer :
   cleaned (final src_tree plain_cfg sched_answered_then_global) = true /\
   g_reply_kind (summ src_tree plain_cfg sched_answered_then_global) = Some (KUp, 200).
 Proof. vm_compute. repeat split; reflexivity. Qed.
+
+(* ---------- where the retry decision takes its status from (HTTP flavour: the context variable) ---------- *)
+Definition cfg_http_codes : cfg :=
+  plain_cfg <| c_retry_on := true |> <| c_codes := [503] |> <| c_num_retries := 3%nat |> <| c_http := true |>.
+(* onUpstreamReset hands UpstreamGlobalTimeout to the retry state, and doRetryCheck consults the status mapping for resets: after
+   an attempt answered 503 (retried), the global time-out of the next attempt finds the 503 still in the request context and is
+   retried - a third attempt goes out after the effective time-out with no global timer armed; answered 200, the client gets 200
+   instead of the 504 local reply *)
+Definition src_global_retried : srcp := src_tree <| reset_excludes_global := false |> <| reset_reads_status := true |>.
+Definition sched_503_then_global : list step :=
+  repeat Worker 12 ++ [Env (EvUpResp 0 503 false false)] ++ drive ++ [Env EvGlobal] ++ drive ++ [Env (EvUpResp 2 200 false false)] ++ drive.
+Lemma witness_global_timeout_retried :
+  nnew (final src_global_retried cfg_http_codes sched_503_then_global) = 3%nat /\
+  x_nog (final src_global_retried cfg_http_codes sched_503_then_global) = true /\
+  g_reply_kind (summ src_global_retried cfg_http_codes sched_503_then_global) = Some (KUp, 200) /\
+  (* the code in the tree: two attempts, the 504 local reply *)
+  nnew (final src_tree cfg_http_codes sched_503_then_global) = 2%nat /\
+  g_reply_kind (summ src_tree cfg_http_codes sched_503_then_global) = Some (KHijack, 504) /\
+  g_ended (summ src_tree cfg_http_codes sched_503_then_global) = true /\
+  (* with the exclusion in onUpstreamReset alone the global time-out is safe even if resets consult the status *)
+  nnew (final (src_tree <| reset_reads_status := true |>) cfg_http_codes sched_503_then_global) = 2%nat.
+Proof. vm_compute. repeat split; reflexivity. Qed.
+
+(* repaired by 291bbf824 (kept on the switch set back): doRetryCheck consulted the status mapping for resets; a remote reset - no
+   configured retry condition - of the attempt after a retried 503 was retried because of the stale 503 *)
+Definition src_stale_status : srcp := src_tree <| reset_reads_status := true |>.
+Definition sched_503_then_reset : list step :=
+  repeat Worker 12 ++ [Env (EvUpResp 0 503 false false)] ++ drive ++ [Env (EvUpReset 1 RsRemoteReset)] ++ drive.
+Lemma witness_stale_status :
+  nnew (final src_stale_status cfg_http_codes sched_503_then_reset) = 3%nat /\
+  nnew (final src_tree cfg_http_codes sched_503_then_reset) = 2%nat /\
+  g_reply_kind (summ src_tree cfg_http_codes sched_503_then_reset) = Some (KHijack, reason_code src_tree RsRemoteReset) /\
+  (* the xprotocol flavour (status read from the headers) never had it *)
+  nnew (final src_stale_status (cfg_http_codes <| c_http := false |>) sched_503_then_reset) = 2%nat.
+Proof. vm_compute. repeat split; reflexivity. Qed.
+
+(* as statements: a reset is judged by its reason alone *)
+Definition reset_by_reason_statement (src : srcp) : Prop :=
+  forall c why s, retry_check src c None why s = retry_rule c None why.
+Lemma refuted_reset_reads_status : ~ reset_by_reason_statement src_stale_status.
+Proof.
+  intros H. specialize (H cfg_http_codes RsRemoteReset (init_st 0 <| status_var := Some 503 |>)). vm_compute in H. discriminate H.
+Qed.
